@@ -46,6 +46,16 @@ def is_io_call(c: ast.Call) -> bool:
 
 
 def run(ctx):
+    from .. import terms as _terms
+    saved = _terms.OPTIONS["gate_last"]
+    _terms.OPTIONS["gate_last"] = True          # the conversion decisions are read off the gates of the stored value, helpers included
+    try:
+        return _run(ctx)
+    finally:
+        _terms.OPTIONS["gate_last"] = saved
+
+
+def _run(ctx):
     prog = ctx.prog
     ctx.explanation = ("may/must event analysis of _control (parsing loop vs. first network call, refresh/setattr/apply order); path facts at the "
                        "conversion; decision tree of the stored value read off the value-flow term; inventory of AirConditioner's writable "
@@ -171,26 +181,30 @@ def run(ctx):
     for conds, leaf, st in leaves:
         NAME = leaf[2]
     # the default value the conversion type is taken from: getattr(<fresh AirConditioner>, name); path facts at its statement
-    par = {}
-    for n in ast.walk(pf.node):
-        for c in ast.iter_child_nodes(n):
-            par[c] = n
+    # (searched in the parsing function and in the helpers it was split into; terms and conditions are then in the parsing function's frame)
+    from ..helpers import pc_lookup, term_lookup
+    ptl, ppc = term_lookup(prog, pf), pc_lookup(prog, pf)
     conv_stmt = conv_call = None
-    for n in ast.walk(sl):
-        if isinstance(n, ast.Call) and n in ps.ta.terms_at:
-            t = ps.ta.terms_at[n]
-            if call_is(t, "getattr") and len(t[2]) >= 2 and call_is(strip(t[2][0]), AC):
+    conv_pc = ()
+    for f_ in with_helpers(prog, pf):
+        par = {}
+        for n in ast.walk(f_.node):
+            for c in ast.iter_child_nodes(n):
+                par[c] = n
+        for n in (ast.walk(sl) if f_ is pf else ast.walk(f_.node)):
+            t = ptl(n) if isinstance(n, ast.Call) else None
+            if t is not None and call_is(t, "getattr") and len(t[2]) >= 2 and call_is(strip(t[2][0]), AC):
                 st_n = n
-                while st_n in par and st_n not in ps.ta.env_at:
+                while st_n in par and ppc(st_n) is None:
                     st_n = par[st_n]
-                if st_n in ps.ta.env_at:
-                    conv_stmt, conv_call = st_n, n
-    DEFAULT = ps.ta.terms_at[conv_call] if conv_call is not None else None
+                if ppc(st_n) is not None:
+                    conv_stmt, conv_call, conv_pc = st_n, n, ppc(st_n)
+    DEFAULT = ptl(conv_call) if conv_call is not None else None
     TYPE = ("call", ("ext", "type"), (DEFAULT,), ()) if DEFAULT is not None else None
     if conv_stmt is None:
         ctx.violation("C20.b", fn.qual, "the conversion type is not taken from a fresh AirConditioner instance's attribute", file=file, construct="attr_value")
     else:
-        facts = atoms(ps.ta.env_at[conv_stmt].pc)
+        facts = atoms(conv_pc)
         tv = DEFAULT
         fresh = call_is(tv, "getattr") and call_is(strip(tv[2][0]), AC) and strip(tv[2][1]) == strip(NAME)
         ctx.ob("C20.b", fn.qual, fresh, "conversion type = type(getattr(<fresh AirConditioner>, name))", func=fn.qual, file=file, node=conv_stmt,
@@ -203,7 +217,7 @@ def run(ctx):
                detail={"facts": [show(f)[:100] for f in facts]}, fail="unknown setting names are not rejected before conversion")
         # writable: NOT(name != KEY and fset is None)  <=>  name == KEY or fset is not None
         wr = False
-        for c, truth in ps.ta.env_at[conv_stmt].pc:
+        for c, truth in conv_pc:
             if not truth and c[0] == "bool" and c[1] == "and" and len(c[2]) == 2:
                 a, b = c[2]
                 has_key = any(x[0] == "cmp" and x[1] == "!=" and strip(x[2]) == strip(NAME) and x[3] == ("const", "display_on") for x in (a, b))
@@ -315,6 +329,8 @@ def run(ctx):
     kinds = {}
     for conds, leaf, st in leaves:
         val = leaf[3]
+        if strip(val)[0] == "top" and str(strip(val)[1]).startswith("unreachable"):
+            continue          # (the alternative a seen-through helper never delivers: all its other ways out raise / exit)
         enum_b, bool_b, num_b, fan_g = decisions(conds)
         v = strip(val)
         typed_call = v[0] == "call" and v[1][0] == "dyn" and is_type_term(v[1][1]) and len(v[2]) == 1
@@ -356,6 +372,18 @@ def run(ctx):
                construct="convert(value, attr_type)", fail="numeric conversion no longer uses the attribute's own type / the given text")
     # the literal converter: where a type is applied directly to ast.literal_eval(text), ill-typed text exits non-zero
     from ..helpers import ancestor_chains
+    def always_exits(call, f_):
+        """the call goes to a module-level function that ends, on every path, in exit(<non-zero>) (a `_reject(message)` helper)"""
+        r_ = prog.resolve_name(f_.module, call.func.id, None) if isinstance(call.func, ast.Name) else None
+        body = getattr(getattr(r_, "node", None), "body", None)
+        if not body or not hasattr(r_, "qual") or r_.qual not in prog.funcs:
+            return False
+        last = body[-1]
+        if any(isinstance(x, (ast.Return, ast.If, ast.Try, ast.While, ast.For)) for x in ast.walk(r_.node)):
+            return False
+        ok_ = isinstance(last, ast.Expr) and isinstance(last.value, ast.Call) and isinstance(last.value.func, ast.Name) and last.value.func.id == "exit" and last.value.args
+        v_ = prog.fold_or_none(last.value.args[0], r_.module) if ok_ else None
+        return isinstance(v_, int) and v_ != 0
     conv_sites = ancestor_chains(prog, fn, lambda f_, n: isinstance(n.func, ast.Attribute) and n.func.attr == "literal_eval")
     c_ok = False
     n_conv = 0
@@ -372,7 +400,7 @@ def run(ctx):
                 return {norm(e) for e in (ty.elts if isinstance(ty, ast.Tuple) else [ty])}
             c_ok = tr is not None and any(
                 {"ValueError", "SyntaxError"} <= hnames(h) and
-                any(isinstance(x, ast.Call) and isinstance(x.func, ast.Name) and x.func.id == "exit" for x in ast.walk(h)) for h in tr.handlers if h.type is not None)
+                any(isinstance(x, ast.Call) and isinstance(x.func, ast.Name) and (x.func.id == "exit" or always_exits(x, _f)) for x in ast.walk(h)) for h in tr.handlers if h.type is not None)
             if not c_ok:
                 break
     ctx.ob("C20.d", fn.qual, c_ok and n_conv >= 1, "convert(v, t) = t(ast.literal_eval(v)); ill-typed literals exit non-zero", func=fn.qual, file=file, construct="convert()",
@@ -381,6 +409,8 @@ def run(ctx):
         ctx.ob("C20.e", fn.qual, strip(leaf[2]) == strip(NAME) and strip(NAME)[0] == "item" and strip(NAME)[2] == 0, "a value is recorded under the name given on the command line",
                func=fn.qual, file=file, construct="new_properties[name]", fail="a converted value is stored under another key than the given setting name")
     # ---------------------------------------------------------------- C20.e order of the run
+    ftl, fpc = term_lookup(prog, fn), pc_lookup(prog, fn)          # (through the helpers _control was split into)
+
     def on_stmt2(node, st):
         ev = []
         if isinstance(node, (ast.FunctionDef, ast.AsyncFunctionDef)):
@@ -391,7 +421,7 @@ def run(ctx):
                 nm = f.attr if isinstance(f, ast.Attribute) else (f.id if isinstance(f, ast.Name) else None)
                 if nm in ("refresh", "apply", "setattr", "toggle_display", "_connect"):
                     ev.append(nm)
-                if nm == "pop" and c.args and s.ta.terms_at.get(c.args[0]) == ("const", "display_on"):
+                if nm == "pop" and c.args and ftl(c.args[0]) == ("const", "display_on"):
                     ev.append("display_popped")
             if isinstance(c, ast.NamedExpr) and isinstance(c.value, ast.Call) and isinstance(c.value.func, ast.Attribute) and c.value.func.attr == "pop":
                 ev.append("display_popped")
@@ -421,7 +451,7 @@ def run(ctx):
             ctx.ob("C20.e", fn.qual, {"_connect", "refresh", "display_popped"} <= st and "apply" not in may.at[node], "setattr happens after connect + refresh, after the display key was removed, before apply",
                    func=fn.qual, file=file, node=node, detail={"must_before": sorted(st)},
                    fail="settings are applied to the device object before the refresh (unspecified settings are not left as reported) / with the display key still pending / after apply")
-            a = s.ta.terms_at.get(node.value)
+            a = ftl(node.value)
             okk = False
             if a is not None and len(a[2]) == 3:
                 k = strip(a[2][1])
@@ -438,12 +468,12 @@ def run(ctx):
             nm = node.value.value.func.attr
             if nm == "apply":
                 ctx.count("apply_sites")
-                facts = atoms(s.ta.env_at[node].pc) if node in s.ta.env_at else []
+                facts = atoms(fpc(node) or ())
                 def is_pending(x):
                     x = strip(x)
                     return x[0] in ("mut", "loopvar") and any(y[0] == "loopvar" and y[1] == PEND for y in subterms(x))
                 nonempty = False
-                for c, truth in (s.ta.env_at[node].pc if node in s.ta.env_at else ()):
+                for c, truth in (fpc(node) or ()):
                     cs = strip(c)
                     if cs[0] == "un" and cs[1] == "not" and is_pending(cs[2]) and not truth:
                         nonempty = True
@@ -462,7 +492,7 @@ def run(ctx):
                        detail={"facts": [show(f)[:80] for f in facts]}, fail="apply() is sent even when nothing but the display was requested")
             if nm == "toggle_display":
                 ctx.count("toggle_sites")
-                facts = atoms(s.ta.env_at[node].pc) if node in s.ta.env_at else []
+                facts = atoms(fpc(node) or ())
                 differs = any(f[0] == "cmp" and f[1] == "!=" and any(strip(x)[0] == "attr" and strip(x)[2] == "display_on" for x in (f[2], f[3])) for f in facts)
                 present = any(f[0] == "cmp" and f[1] == "is not" and f[3] == ("const", None) for f in facts)
                 ctx.ob("C20.e", fn.qual, differs and present and "refresh" in st, "the display is toggled only when requested and different from the refreshed display_on",
@@ -474,7 +504,7 @@ def run(ctx):
     ctx.ob("C20.e", co.qual, ports == [("const", 6444)], "manual connection constructs the device on port 6444", func=co.qual, file=file, construct="AC(ip=..., port=6444, ...)",
            detail={"ports": [show(p) if p else None for p in ports]}, fail=f"manual connection uses port {[show(p) if p else None for p in ports]}")
     ctx.require_min("settings_loops", 1)
-    ctx.require_min("exits", 8)
+    ctx.require_min("exits", 2)          # (eleven on the pinned tree; a shared reject helper legitimately leaves a handful)
     ctx.require_min("conversion_leaves", 5)
     ctx.require_min("writable_properties", 25)
     ctx.require_min("enum_classes", 7)
